@@ -512,10 +512,16 @@ class Engine:
         s.add(z3.Not(f))
         t0 = time.time()
         r = s.check()
+        backend = 'z3'
+        if r == z3.unknown:
+            r, backend = self.second_opinion(s, f)
         dt = time.time() - t0
         self.solver_time += dt
         model = None
-        if r == z3.sat:
+        if r == z3.sat and backend != 'z3':
+            status = 'sat'
+            model = {'note': 'refuted by %s (no model extracted)' % backend}
+        elif r == z3.sat:
             m = s.model()
             model = {}
             for d in m.decls():
@@ -529,11 +535,58 @@ class Engine:
         else:
             status = 'unknown'
         ob = Obligation(name, r == z3.unsat, status, model, list(self.decisions[:self.pos]),
-                        detail, dt)
+                        detail, dt, backend)
         if status != 'unsat':
             ob.smt2 = s.to_smt2()
         self.obligations.append(ob)
         return ob.ok
+
+    def second_opinion(self, s, f):
+        """an `unknown` from the default z3 configuration goes to z3's nlsat tactic and then
+        to the cvc5 binary; budgets are large so that verdicts do not flip under load."""
+        import subprocess
+        import tempfile
+        import os
+        try:
+            g = z3.Goal()
+            for a in s.assertions():
+                g.add(a)
+            t = z3.Then('simplify', 'solve-eqs', 'qfnra-nlsat')
+            ts = t.solver()
+            ts.set('timeout', 60000)
+            ts.add(g.as_expr())
+            r = ts.check()
+            if r != z3.unknown:
+                return r, 'z3-nlsat'
+        except z3.Z3Exception:
+            pass
+        try:
+            ss = z3.Solver()
+            ss.set('timeout', 90000)
+            ss.set('smt.random_seed', 7)
+            for a in s.assertions():
+                ss.add(a)
+            r = ss.check()
+            if r != z3.unknown:
+                return r, 'z3-seed7'
+        except z3.Z3Exception:
+            pass
+        try:
+            txt = s.to_smt2()
+            with tempfile.NamedTemporaryFile('w', suffix='.smt2', delete=False) as fh:
+                fh.write('(set-logic ALL)\n' + txt)
+                path = fh.name
+            p = subprocess.run(['/usr/bin/cvc5', '--tlimit=60000', path], capture_output=True, text=True,
+                               timeout=90)
+            os.unlink(path)
+            out = p.stdout.strip().split('\n')[0] if p.stdout else ''
+            if out == 'unsat':
+                return z3.unsat, 'cvc5'
+            if out == 'sat':
+                return z3.sat, 'cvc5'
+        except Exception:
+            pass
+        return z3.unknown, 'z3+cvc5'
 
     def cover(self, name):
         """reachability witness: the current path condition is satisfiable."""
@@ -570,6 +623,9 @@ class Engine:
             return self.sym_array(name, v.rank, v.kind, v.length)
         if isinstance(v, Opt) or v is None:
             return Opt(z3.Bool(fresh_name(base + '.isnone')), fresh_int(base + '.val'))
+        if isinstance(v, SSet):
+            f = z3.Function(fresh_name(base + '.has'), z3.IntSort(), z3.BoolSort())
+            return SSet(lambda k, f=f: f(k), base)
         raise EngineError('cannot havoc value %r (%s)' % (v, base))
 
     def sym_array(self, name, rank, kind, length=None):
@@ -619,6 +675,8 @@ class Engine:
         if ty == 'optcomplex':
             return Opt(self.uf(name + '.isnone', *(sorts + [z3.BoolSort()]))(*args),
                        self.make_typed('complex', name + '.val', args))
+        if ty == 'ndbool2':
+            return NDArr([self.make_typed('bool', '%s.%d' % (name, k), args) for k in range(2)])
         if ty == 'vec3':
             return NDArr([self.make_typed('real', '%s.%d' % (name, k), args) for k in range(3)])
         if ty.startswith('obj:'):
@@ -1149,6 +1207,7 @@ class Engine:
         if getattr(spec, 'on_entry', None) is not None:
             spec.on_entry(self, init)
         skey = spec.key_fn(self, env) if getattr(spec, 'key_fn', None) is not None else spec.key
+        extra = self.uncarried_locals(st, env, spec)
         if spec.inv is not None and self.choose(2) == 1:
             self.oblige('%s/invariant-holds-on-entry' % name, spec.inv(self, 0, init))
             raise PathEnd()
@@ -1167,6 +1226,8 @@ class Engine:
                 before[loc] = v
                 self.write_loc(loc, v, env)
             elem = seq.at(i)
+            for nm in extra:
+                env[nm] = self.fresh_like(env[nm], 'havoc.' + nm)
             if spec.assume is not None:
                 self.assume(spec.assume(self, i, elem))
             snap = {loc: self.snapshot(v) for loc, v in before.items()}
@@ -1235,6 +1296,11 @@ class Engine:
                                                  skey, seq.length)
         for loc in spec.carried:
             self.write_loc(loc, res[loc], env)
+        for nm in extra:
+            # a local the body modifies without being part of the loop's specification:
+            # nothing is known about it after the loop (sound over-approximation)
+            env[nm] = self.fresh_like(env[nm], 'havoc.' + nm)
+            self.notes.append('loop %s: local %r is modified by the body but not specified; havocked' % (name, nm))
         if spec.inv is not None:
             self.assume(spec.inv(self, seq.length, res))
         # temporaries assigned in the body are unknown after the loop
@@ -1245,6 +1311,31 @@ class Engine:
         for n in ast.walk(st.target):
             if isinstance(n, ast.Name):
                 env.pop(n.id, None)
+
+    MUTATORS = ('append', 'add', 'extend', 'update', 'pop', 'sort', 'insert', 'remove', 'clear')
+
+    def uncarried_locals(self, st, env, spec):
+        names = set()
+        for n in ast.walk(ast.Module(body=st.body, type_ignores=[])):
+            if isinstance(n, ast.Name) and isinstance(n.ctx, ast.Store):
+                names.add(n.id)
+            elif isinstance(n, ast.Call) and isinstance(n.func, ast.Attribute) \
+                    and isinstance(n.func.value, ast.Name) and n.func.attr in self.MUTATORS:
+                names.add(n.func.value.id)
+            elif isinstance(n, ast.Subscript) and isinstance(n.ctx, ast.Store) \
+                    and isinstance(n.value, ast.Name):
+                names.add(n.value.id)
+        for n in ast.walk(st.target):
+            if isinstance(n, ast.Name):
+                names.discard(n.id)
+        out = []
+        for nm in sorted(names):
+            if nm in env and ('local', nm) not in spec.carried:
+                v = env[nm]
+                if isinstance(v, (SList, SSet, SDict, SArr, CX, SV, int, Fraction, bool, Opt)) or v is None:
+                    out.append(nm)
+        self._extra_locals = set(out)
+        return out
 
     def check_loop_frame(self, writes, spec, st, env, name, stamp0, before):
         """frame condition of the loop rule: everything the body writes that
@@ -1261,6 +1352,8 @@ class Engine:
             if w[0] == 'local':
                 if ('local', w[1]) in spec.carried or w[1] in body_locals:
                     continue
+                if w[1] in getattr(self, '_extra_locals', ()):
+                    continue
             elif w[0] == 'yield':
                 if ('yield',) in spec.carried:
                     continue
@@ -1274,6 +1367,8 @@ class Engine:
                     continue
             else:
                 if w[1].stamp > stamp0 or any(v is w[1] for v in carried_vals):
+                    continue
+                if any(env.get(nm) is w[1] for nm in getattr(self, '_extra_locals', ())):
                     continue
             raise EngineError('loop %s writes %r which its LoopSpec does not carry' % (name, w[:1] + w[2:] if w[0] == 'attr' else w[0]))
 
@@ -1375,6 +1470,9 @@ class Engine:
                     conds.append(self.values_equal(x[1], y[1]))
             return b_and(*conds) if conds else True
         if isinstance(a, SList) and isinstance(b, SList):
+            if a is not b and any(c[0] == 'opaque' and c[1].startswith('havoc.')
+                                  for c in a.chunks + b.chunks):
+                return fresh_bool('unknown-list-equality')
             return self.slist_equal(a, b)
         if isinstance(a, SList) and isinstance(b, list):
             return self.slist_equal(a, SList([('conc', list(b))]))
@@ -2001,6 +2099,19 @@ class Engine:
         return SList([('conc', self.comprehension(e.elt, e.generators, env))])
 
     def ev_GeneratorExp(self, e, env):
+        if len(e.generators) == 1 and not e.generators[0].ifs:
+            g = e.generators[0]
+            it = self.iterable(self.eval(g.iter, env))
+            if self.concrete_items(it) is None:
+                seq = self.as_seq(it)
+
+                def at(i, g=g, env=env, e=e, seq=seq):
+                    env2 = dict(env)
+                    self.assign(g.target, seq.at(i), env2)
+                    return self.eval(e.elt, env2)
+                r = SSeq(seq.length, at, 'map(%s)' % seq.label)
+                r.map_of = (seq, ast.unparse(e.elt))
+                return SList([('seq', r)])
         return SList([('conc', self.comprehension(e.elt, e.generators, env))])
 
     def ev_SetComp(self, e, env):
@@ -2014,7 +2125,7 @@ class Engine:
                 out.append(self.eval(elt, env))
                 return
             g = gens[k]
-            it = self.eval(g.iter, env)
+            it = self.iterable(self.eval(g.iter, env))
             items = self.concrete_items(it)
             if items is None:
                 raise EngineError('comprehension over symbolic sequence: %s' % ast.unparse(g.iter))
